@@ -22,9 +22,17 @@ POS_METHODS = api.SCRIPT_POS_METHODS
 
 @st.composite
 def texts(draw):
-    kind = draw(st.sampled_from(["window", "window", "window", "soup", "tiny"]))
+    kind = draw(st.sampled_from(["window", "window", "window", "soup", "tiny", "idiom"]))
     if kind == "soup":
         return "soup", draw(corpus.soups()), ["soup"]
+    if kind == "idiom":
+        # a whole idiom file (constructs the anchored code special-cases) with one number literal swapped for another
+        # numeric form, plus the usual mutators
+        idioms = sorted({(n, t) for n, t in corpus.files() if n.startswith("idioms/")})
+        name, t = draw(st.sampled_from(idioms))
+        t, a1 = draw(corpus.mutate(t, kinds=["num_swap"]))
+        t, a2 = draw(corpus.mutate(t, kinds=["none", "none", "num_swap", "del_token", "ins_token", "prefix_token", "del_line", "crlf"]))
+        return name, t, ["idiom"] + a1 + a2
     if kind == "tiny":
         name, t = draw(corpus.windows(lo=1, hi=6))
     else:
